@@ -1,9 +1,9 @@
 import Pl.Hib
 import Pl.Erase2
 import Pl.Awake
+import Pl.Lifecycle
 
 /-! # C04 — property theorems (statements only; proofs live in the family libraries) -/
-
 set_option linter.unusedVariables false
 
 namespace Props.C04
@@ -33,6 +33,32 @@ theorem insertHB2_awake :
     ∀ (plan : List Action) (d b : Nat) (hp : PlainFor plan b),
     (insertHB2 plan d).foldl (stepB b) (some false) = some false :=
   @Pl.insertHB2_awake
+end
+
+section
+open Pl
+
+/-- a root branch is created only if it does not exist and was never disposed -/
+theorem step_emerge_sound :
+    ∀ (strict : Bool) (pa : Array (List Nat)) (anc : List (List Nat)) (s s' : St) (a : Action)
+    (hk : a.kind = .emerge) (h : step strict pa anc s a = .ok s'),
+    ∃ b, a.items = [b] ∧ s.get b = none ∧ b ∉ s.dead ∧ s'.get b = some ⟨[], none, false⟩ :=
+  @Pl.step_emerge_sound
+
+/-- a fork copies a live awake branch onto pairwise distinct branches that neither exist nor were disposed -/
+theorem step_fork_sound :
+    ∀ (strict : Bool) (pa : Array (List Nat)) (anc : List (List Nat)) (s s' : St) (a : Action)
+    (hk : a.kind = .fork) (h : step strict pa anc s a = .ok s'),
+    ∃ b bs br, a.items = b :: bs ∧ s.get b = some br ∧ br.hib = false ∧ bs ≠ [] ∧
+      (dedup bs).length = bs.length ∧ ∀ x ∈ bs, s.get x = none ∧ x ∉ s.dead ∧ x ≠ b :=
+  @Pl.step_fork_sound
+
+/-- only a live awake branch is disposed; afterwards it is gone for good -/
+theorem step_delete_sound :
+    ∀ (strict : Bool) (pa : Array (List Nat)) (anc : List (List Nat)) (s s' : St) (a : Action)
+    (hk : a.kind = .delete) (h : step strict pa anc s a = .ok s'),
+    ∃ b br, a.items = [b] ∧ s.get b = some br ∧ br.hib = false ∧ b ∈ s'.dead ∧ s'.get b = none :=
+  @Pl.step_delete_sound
 end
 
 end Props.C04
